@@ -13,13 +13,13 @@ CHECKS = {
    technique="explicit-state BFS over operation histories, each transition replayed on the real store against a reference model",
    text="All histories of the C01 menu (append/import/remove/clock/GC/flush/reopen over prefix-related topics, 2-3 contexts, forever+time TTLs) up to the reported depth are executed on the real store; after every step every by-id lookup and the full (context,last-id,limit) product on both read paths is compared with the reference model.",
    note=E1_NOTE),
- "C05": dict(engine="E1-seq", cat="model_checking", ref="DESIGN.md §5 C05",
-   technique="explicit-state BFS over operation histories on the real store; differential oracle between the three access paths and head",
-   text="All histories over adversarial topics (empty, prefix-related, 0x01, U+00FF, multi-byte, NUL) and adjacent contexts up to the reported depth; in every quiescent state by-id, all-stream, context-stream and head(topic,context) for the whole alphabet are compared with each other on the real store.",
+ "C05": dict(engine="E1-seq+E2-sched", cat="model_checking", ref="DESIGN.md §5 C05",
+   technique="explicit-state BFS over operation histories on the real store; differential oracle between the three access paths and head; preemption-bounded schedule DFS for import vs remove vs append of the same frame",
+   text="All histories over adversarial topics (empty, prefix-related, 0x01, U+00FF, multi-byte, NUL) and adjacent contexts up to the reported depth; in every quiescent state by-id, all-stream, context-stream and head(topic,context) for the whole alphabet are compared with each other on the real store; the histories include imports of a different frame under a stored id (other topic, other context). Plus (E2) an importer, a remover and an appender acting on the same frame under all interleavings of their commit steps, with the same agreement oracle at quiescence.",
    note=E1_NOTE),
  "C07": dict(engine="E1-seq+E2-sched", cat="model_checking", ref="DESIGN.md §5 C07",
    technique="explicit-state BFS over registration/removal/import/append/reopen histories on the real store; preemption-bounded schedule DFS for unregister vs append",
-   text="All histories over register (each TTL), remove, import of registrations (adjacent / older ids), append into zero / registered / removed / never-registered contexts and reopen, up to the reported depth; acceptance must equal usable(ctx) computed from the stored frames, rejected appends leave the raw partitions, the registry and a live subscriber untouched. Plus (E2) the removal of a registration frame racing one or two appenders into that context under all interleavings of its registry-update / commit steps: no append that began after an observer found the registration gone may be accepted.",
+   text="All histories over register (each TTL), remove, import of registrations (adjacent / older ids), imports of a registration under the id of an ordinary frame and of an ordinary frame under the id of a registration, append into zero / registered / removed / never-registered contexts and reopen, up to the reported depth; acceptance must equal usable(ctx) computed from the stored frames, rejected appends leave the raw partitions, the registry and a live subscriber untouched. Plus (E2) the removal of a registration frame racing one or two appenders into that context under all interleavings of its registry-update / commit steps: no append that began after an observer found the registration gone may be accepted.",
    note=E1_NOTE + " E2 part: scheduling points are the verif hooks ctx.unregister, commit.pre/post and append.*."),
  "C08": dict(engine="E1-seq", cat="model_checking", ref="DESIGN.md §5 C08/C09",
    technique="explicit-state BFS with the clock and the GC worker as explicit operations, lower-bound (must-be-present) oracle",
@@ -49,16 +49,16 @@ CHECKS = {
    note="Trusted: serde_json, serde_urlencoded, ssri, hyper. Bounded by the token alphabets in coverage.rule; values outside them are not covered."),
  "C13": dict(engine="E4-http", cat="model_checking", ref="DESIGN.md §5 C13, §4 E4",
    technique="exhaustive enumeration of request sequences up to length 2 (3 on a core) against the real HTTP server, differential oracle against the Store API on the same store",
-   text="All sequences of length 1-2 over a ~50-request alphabet covering every route valid and with each kind of damage (ids, contexts, TTLs, options, xs-meta incl. non-ASCII header bytes, bodies none/small/70000 chunked, CAS hashes, unknown methods), each on a fresh seeded store behind the real api::serve over the unix socket with a raw HTTP/1.1 client; every response must exist, have the right status class, the right effect on the raw partitions, and NDJSON/SSE bodies must decode to what Store::read returns; GET /version must still work afterwards.",
+   text="All sequences of length 1-2 over a ~50-request alphabet covering every route valid and with each kind of damage (ids, contexts, TTLs, options, xs-meta incl. non-ASCII header bytes, bodies none/small/70000 chunked, CAS hashes, unknown methods), each on a fresh seeded store behind the real api::serve over the unix socket with a raw HTTP/1.1 client; every response must exist, have the right status class, the right effect on the raw partitions, and NDJSON/SSE bodies must decode to what Store::read returns; GET /version must still work afterwards; every single request again with a stray empty line behind it and with a second request pipelined behind it.",
    note="Trusted: hyper's HTTP/1 parsing, tokio. Any 2xx counts as success; follow streams are covered by C03/C06/C11 at the Store API."),
 
  "C06": dict(engine="E1-seq+E2-sched+E4-http+E5", cat="model_checking", ref="DESIGN.md §5 C06",
    technique="explicit-state BFS (store paths), preemption-bounded schedule DFS (follow paths) and exhaustive HTTP streaming cases, all on the real code",
-   text="Zero context + two registered contexts with numerically adjacent ids, the same topics in all three: (E1) all histories up to the reported depth with the full (context,last-id,limit) read battery on both read paths and head for every (topic,context); (E2) scoped followers from start / tail / last-id+limit against writers in every context under all interleavings within the bound; (E4) every streaming HTTP route taking a context (head-follow with and without the context parameter, cat-follow NDJSON+SSE) x target context x head present x order of foreign appends, read up to a sentinel; (E5) .cat / .cat --last-id / .head / .head --context inside a handler and inside a command of context B, handler dispatch (a frame of A must not trigger it) and handler output with --context A. Nothing of another context may ever be delivered.",
+   text="Zero context + two registered contexts with numerically adjacent ids, the same topics in all three: (E1) all histories up to the reported depth with the full (context,last-id,limit) read battery on both read paths and head for every (topic,context); (E1 also moves a frame into another context by importing it again under its id) (E2) scoped followers from start / tail / last-id+limit against writers in every context under all interleavings within the bound; (E4) every streaming HTTP route taking a context (head-follow with and without the context parameter, cat-follow NDJSON+SSE) x target context x head present x order of foreign appends, read up to a sentinel; (E5) .cat / .cat --last-id / .head / .head --context inside a handler and inside a command of context B, handler dispatch (a frame of A must not trigger it) and handler output with --context A. Nothing of another context may ever be delivered.",
    note="Trusted as in E1/E2/E4/E5."),
  "C10": dict(engine="E6-enum+observer", cat="model_checking", ref="DESIGN.md §5 C10",
    technique="bounded exhaustive enumeration of byte strings x content entry points with an independent SHA-256 oracle, plus a hook-level observer reading the content of every hashed frame before it can become visible",
-   text="6 byte strings around the buffer sizes (empty, 1, non-UTF-8, 8192, 8193, 70000) through 8 entry points (Store CAS API in both size-hinted and streaming forms, POST /cas and POST /{topic}, plain and chunked); every reported hash must equal an independently computed sha256 integrity string, be equal across entry points, return the bytes, and survive a reopen; an observer installed at the append hook reads the content of every hashed frame at the moment its id is assigned, on whatever thread appends it.",
+   text="6 byte strings around the buffer sizes (empty, 1, non-UTF-8, 8192, 8193, 70000) through 8 entry points (Store CAS API in both size-hinted and streaming forms, POST /cas and POST /{topic}, plain and chunked); every reported hash must equal an independently computed sha256 integrity string, be equal across entry points, return the bytes, and survive a reopen; an observer installed at the append hook reads the content of every hashed frame at the moment its id is assigned, on whatever thread appends it; every non-empty input again through refused / cut requests (unregistered context, NUL topic, bad ttl, bad xs-meta, cut uploads, NUL-topic import): the content of the visible frames that reference the same bytes must stay retrievable; (E1) all histories over frames sharing content, removed / evicted / expired one by one.",
    note="Trusted: cacache. A failed write makes no claim. Crash images are C04's part; script entry points (nu .append, handler/command/generator output) are exercised by the lifecycle engine with the same observer."),
  "C20": dict(engine="E1-seq+E4-http", cat="model_checking", ref="DESIGN.md §5 C20",
    technique="explicit-state BFS over source histories; for every reachable source state every permutation (and single-frame duplication) of the import order through the real POST /cas and POST /import routes, differential oracle source vs target",
@@ -76,21 +76,21 @@ CHECKS = {
    note="Trusted: nushell (explored through). The serve loop's schedule is the OS's; programs are enumerated, schedules are C03/C16's. quick = every value of every dimension and all pairs with the append shape; thorough = the full product."),
  "C16": dict(engine="E2-sched+E5-lifecycle", cat="model_checking", ref="DESIGN.md §5 C16",
    technique="all interleavings of the handler start-up (spawner announce / task start+subscribe / client) under the controlled scheduler, plus exhaustive lifecycle histories against a reference model",
-   text="(a) every schedule of {spawner: announce .registered} x {handler task start} x {client: wait until .registered is visible, append trigger} for resume modes tail / head / after-id on the real Handler::spawn, then a flush frame: the trigger must be processed exactly once. (b) every history of register / invalid register / unregister / ok trigger / failing trigger over 2 names x 2 contexts up to depth 3 (4 thorough): exactly one unregistered per stop with id (and error), the active instance and nobody else answers later frames.",
+   text="(a) every schedule of {spawner: announce .registered} x {handler task start} x {client: wait until .registered is visible, append trigger} for resume modes tail / head / after-id on the real Handler::spawn, then a flush frame: the trigger must be processed exactly once. (b) every history of register / invalid register / unregister / ok trigger / failing trigger over 2 names x 2 contexts up to depth 3 (4 thorough): exactly one unregistered per stop with id (and error), stored durably, the active instance and nobody else answers later frames. (c) cold starts: every log of 1..3 valid / non-constructible registrations appended before the service starts.",
    note="(a) scheduling points are the verif hooks in Handler::spawn. (b) the serve loops' schedule is the OS's; absence of an answer is decided after all expected answers arrived plus a 40 ms grace period (a slower zombie would be missed, never a false alarm)."),
 
  "C18": dict(engine="E5-lifecycle", cat="model_checking", ref="DESIGN.md §5 C18",
    technique="bounded exhaustive enumeration of generator expressions, lifecycles, spawn errors and duplex send sequences against the real generators::serve",
-   text="Expressions yielding 0..3 strings as single value / list value / lazy stream x context x 1-2 consecutive lifecycles (real 1 s restart delay): start, recv per string with that content, stop, restart, all stamped with the spawn id and in the spawn's context; spawn without content, spawn for a running name (exactly one spawn.error naming it), the same name in another context (independent); rejected-spawn lifecycles (duplicate / content-less spawns while an instance exists, then its stop, restart, a further spawn and sends); duplex echo with 0..3 sends, with interleaved unrelated traffic, a send before the instance, a same-name send in another context and a look-alike topic, closed by a sentinel send.",
+   text="Expressions yielding 0..3 strings as single value / list value / lazy stream x context x 1-2 consecutive lifecycles (real 1 s restart delay): start, recv per string with that content, stop, restart, all stamped with the spawn id and in the spawn's context; spawn without content, spawn for a running name (exactly one spawn.error naming it), the same name in another context (independent); rejected-spawn lifecycles (duplicate / content-less spawns while an instance exists, then its stop, restart, a further spawn and sends); duplex echo with 0..3 sends, with interleaved unrelated traffic, a send before the instance, a same-name send in another context and a look-alike topic, closed by a sentinel send; sends of very different sizes (4 MiB .. 1 byte) back to back.",
    note="Trusted: nushell. Expressions that fail to parse, yield non-strings or the empty string are outside the grammar. Sentinel-based quiescence; the restart delay is real time."),
  "C19": dict(engine="E5-lifecycle", cat="model_checking", ref="DESIGN.md §5 C19",
    technique="bounded exhaustive enumeration of command programs and of define/call histories (incl. overlapping calls) against the real commands::serve",
-   text="(a) every command script of {8 output shapes} x {explicit .append} x {eager runtime error} x {return_options}: recv per value in order with the JSON rendering as content, then exactly one complete, or exactly one error; stamps, context, TTL, suffix. (b) every history of define / invalid define / call / two overlapping calls over 2 names x 2 contexts up to depth 3 (4 thorough) ending in an observation: each call is served exactly once by the latest valid definition of its own context; results carry the call id (no mixing between overlapping calls), a per-call env counter must read 0 (no state leak); calls without a definition in their context produce nothing.",
+   text="(a) every command script of {8 output shapes} x {explicit .append} x {eager runtime error} x {return_options} x {no module / pure module helper / side append inside a module function}: recv per value in order with the JSON rendering as content, then exactly one complete, or exactly one error; stamps, context, TTL, suffix. (b) every history of define / invalid define / call / two overlapping calls over 2 names x 2 contexts up to depth 3 (4 thorough) ending in an observation: each call is served exactly once by the latest valid definition of its own context; results carry the call id (no mixing between overlapping calls), a per-call env counter must read 0 (no state leak); calls without a definition in their context produce nothing.",
    note="Trusted: nushell. The schedule of overlapping calls is the OS's (mixing is detectable under any schedule because results embed the call id). Absence is decided after the expected terminal events plus a 60 ms grace period. No-replay-after-restart is C17's check."),
 
  "C17": dict(engine="E5-lifecycle (real binary)", cat="model_checking", ref="DESIGN.md §5 C17",
    technique="bounded exhaustive enumeration of lifecycle histories x restart points x {SIGKILL, SIGTERM} against the real `xs serve` child process, reference model of the active set",
-   text="Histories of register / unregister / replace / closure error, spawn / failing spawn, define / invalid define / call over 2 names x 2 contexts with the same name used in both contexts (quick: a fixed family of 21 histories x last two restart points x both signals; thorough: + every history of depth <= 3 over a 16-event alphabet x every restart point). After the restart, sentinels prove every serve loop is live; the handlers announced and the generators started must be exactly the active ones with their old ids, each answers a probe, commands are served by the latest definition of their own context, nothing that was stopped answers, no historical trigger or call is executed again.",
+   text="Histories of register / unregister / replace / closure error, spawn / failing spawn, define / invalid define / call over 2 names x 2 contexts with the same name used in both contexts (quick: a fixed family of 21 histories x last two restart points x both signals; thorough: + every history of depth <= 3 over a 16-event alphabet x every restart point). Plus histories whose last events reached the log without any consequence (appended while the server is down: a crash between the arrival of an event and its processing). After the restart, sentinels prove every serve loop is live; the handlers announced and the generators started must be exactly the active ones with their old ids, each answers a probe, commands are served by the latest definition of their own context, nothing that was stopped answers, no historical trigger or call is executed again.",
    note="The child is the real `xs serve` binary built from /repo's working tree; its internal schedule is the OS's. Restart points are quiescent boundaries of the history (crash points inside an operation are C04's). Absence is decided after the expected answers plus an 80 ms grace period."),
 
  "C14": dict(engine="E5-lifecycle", cat="model_checking", ref="DESIGN.md §5 C14, §10 (fallback)",
